@@ -1,6 +1,7 @@
 package world
 
 import (
+	"sync/atomic"
 	"context"
 	"encoding/hex"
 	"encoding/json"
@@ -107,7 +108,21 @@ type Node struct {
 }
 
 // FreeAddr returns host:port with a currently free port on host.
+// The port is not taken from the kernel's ephemeral range (where it could be handed to somebody else between this probe and the
+// moment the program binds it - several checks may run on the machine at once) but from a range below it, walked from a start
+// that depends on this process.
 func FreeAddr(host string) (string, error) {
+	for try := 0; try < 200; try++ {
+		n := atomic.AddInt64(&freeAddrCounter, 1)
+		port := 10000 + int((int64(os.Getpid())*131+n*7)%20000)
+		l, err := net.Listen("tcp", fmt.Sprintf("%s:%d", host, port))
+		if err != nil {
+			continue
+		}
+		addr := l.Addr().String()
+		_ = l.Close()
+		return addr, nil
+	}
 	l, err := net.Listen("tcp", host+":0")
 	if err != nil {
 		return "", err
@@ -116,6 +131,8 @@ func FreeAddr(host string) (string, error) {
 	_ = l.Close()
 	return addr, nil
 }
+
+var freeAddrCounter int64
 
 // PrepareExternal writes wallets, certificates and configuration; perms: client -> wallet -> operations.
 func PrepareExternal(ctx context.Context, log *Log, mode, binary string, spec Spec, perms map[string]map[string]string) (*ExternalEnv, error) {
